@@ -439,7 +439,9 @@ func checkWeakKeyStatus(c *km.Ctx, s *km.Sem) {
 			continue
 		}
 		n := 0
-		for _, ci := range km.CallsIn(fn) {
+		// the refusal may be written by a stage of the handler that is new to the tree ("each stage reports its
+		// own failure")
+		for _, ci := range callsWithNewHelpers(c, fn, 2) {
 			code, ok := statusOfFailureCall(ci)
 			if !ok {
 				continue
